@@ -173,6 +173,7 @@ def stream_histories(ctx, n_cases: int):
                                                   "args": [["foo", ["str", "bar"]], ["baz", ["int", 42]], ["func", ["str", "eval"]]]}}])
     lines = [model_history_line(h) for h in cases]
     model_out = run_driver(lines)
+    SHARD.extend(("hist", l, o) for l, o in list(zip(lines, model_out))[:400] if len(l) < 6000)
     mism = []
     load_queries = []   # (case index, name, parsed entry)
     impl_results = []
@@ -246,6 +247,7 @@ def stream_nested(ctx, n_cases: int):
             x = gen_nested(ctx.rng, ctx.rng.randint(1, 3))
         cases.append(x)
     mo = run_driver(["st_arr " + sl.jv_tok(x) for x in cases])
+    SHARD.extend(("arr", "st_arr " + sl.jv_tok(x), m) for x, m in list(zip(cases, mo))[:120])
     mism = []
     for x, m in zip(cases, mo):
         ctx.evaluations += 1
@@ -421,13 +423,54 @@ def stream_commands(ctx, n_cfg):
     return mism
 
 
+# ---------------------------------------------------------------- in-Coq shard
+SHARD = []
+
+
+def coq_shard(ctx, limit=200):
+    """Re-evaluate a sample of the driver's answers inside Coq (vm_compute): removes extraction + OCaml printing from the
+    trusted base for that sample."""
+    ex = []
+    hist_n = 0
+    for kind, line, out in SHARD:
+        if len(ex) >= limit:
+            break
+        if kind == "arr":
+            t = sl._Toks(line)
+            t.next()
+            inp = sl.coq_jv(t)
+            o = sl._Toks(out)
+            res = "None" if o.next() == "none" else f"Some {sl.coq_arr(o)}"
+            ex.append(f"st_of_list {inp} = {res}")
+        elif hist_n < limit // 2:
+            # only the final store of histories in which no save raised
+            parts = split_model_hist(out)
+            if "exc" in parts or not parts:
+                continue
+            t = sl._Toks(line)
+            t.next()
+            k = int(t.next())
+            items = []
+            for _ in range(k):
+                nm = sl.coq_str(t.next())
+                items.append(f"({nm}, {sl.coq_output(t)})")
+            final = sl.coq_store(sl._Toks(parts[-1]))
+            ex.append(f"st_run_outputs [] [{'; '.join(items)}] = Some {final}")
+            hist_n += 1
+    ok, log, secs = sl.run_coq_shard(ctx, "C19", "Store", ex)
+    ctx.coverage["in_coq_shard"] = {"examples": len(ex), "compiled": ok, "seconds": secs}
+    if not ok:
+        ctx.violation("in-Coq evaluation (vm_compute) disagrees with the extracted model's answers on the shard",
+                      {"log": log}, found_input=False)
+
+
 # ---------------------------------------------------------------- entry points
 def run(ctx, proof):
     quick = ctx.quick
     mism = []
-    mism += stream_histories(ctx, 150 if quick else 1500)
-    mism += stream_nested(ctx, 150 if quick else 1500)
-    mism += stream_commands(ctx, 12 if quick else 60)
+    mism += stream_histories(ctx, 150 if quick else 4000)
+    mism += stream_nested(ctx, 150 if quick else 3000)
+    mism += stream_commands(ctx, 12 if quick else 120)
     if mism and not any(v["found_input"] for v in ctx.violations):
         ctx.violation("correspondence broken: save_json / Output.from_json / np.array (impl) vs st_run_outputs / st_from_json / "
                       "st_of_list (Store.v); no input violating the property found", {"mismatches": len(mism), "first": mism[0]},
@@ -436,6 +479,8 @@ def run(ctx, proof):
         ctx.coverage["model_impl_mismatches"] = len(mism)
         ctx.coverage["first_mismatch"] = mism[0]
     ctx.coverage["exhaustive"] = False
+    if not quick:
+        coq_shard(ctx)
 
 
 def replay(ctx, rep):
